@@ -171,7 +171,11 @@ func eval(c Case) (key, msg string, okS, okP bool) {
 		for i := 0; i < v1.NumField(); i++ {
 			name := v1.Type().Field(i).Name
 			if d := deepEq(v1.Field(i), v2.Field(i), name, 0); d != "" {
-				k, m := "C20:cert:result-differs:"+name, "parsed certificates differ between the modes at "+d+" (strict vs permissive)"
+				cause := causeOf(name, c1, c.Data)
+				k, m := "C20:cert:result-differs:"+name+cause, "parsed certificates differ between the modes at "+d+" (strict vs permissive)"
+				if cause != "" {
+					m += "; verified cause " + cause[1:]
+				}
 				if !kit.IsKnown(k) {
 					return k, m, okS, okP
 				}
